@@ -9,6 +9,7 @@ import (
 	"encoding/binary"
 	"errors"
 	"fmt"
+	"math"
 	"net"
 	"sync"
 	"time"
@@ -128,6 +129,11 @@ func setupRange(args ...string) (handler.Handler4, error) {
 	// A lease time goes onto the wire in whole seconds. Keep the value the clients are told,
 	// so that the expiry that is stored is the end of the lease that was promised
 	p.LeaseTime = p.LeaseTime.Round(time.Second)
+	// ... and it goes there as an unsigned 32-bit number of seconds: a negative duration or one that does
+	// not fit would be announced as a different lease than the one that is stored
+	if p.LeaseTime < 0 || p.LeaseTime > math.MaxUint32*time.Second {
+		return nil, fmt.Errorf("invalid lease duration: %v (want 0 to %d seconds)", args[3], uint32(math.MaxUint32))
+	}
 
 	if err := p.registerBackingDB(filename); err != nil {
 		return nil, fmt.Errorf("could not setup lease storage: %w", err)
